@@ -39,8 +39,9 @@ TYPES = ("f64", "f32", "i32", "i64")
 
 def configs(tier):
     if tier == "quick":
-        return [Config(isa=i) for i in ("S2", "A2", "A5")]
-    return [Config(isa=i) for i in ALL_ISAS] + [Config(isa="A5", san=True, opt="O1")]
+        # (the assertion-carrying build runs the constructor and layout cases: their size checks are compiled out under NDEBUG)
+        return [Config(isa=i) for i in ("S2", "A2", "A5")] + [Config(isa="S2", ndebug=False)]
+    return [Config(isa=i) for i in ALL_ISAS] + [Config(isa="A5", san=True, opt="O1"), Config(isa="S2", ndebug=False), Config(isa="A5", ndebug=False)]
 
 
 def _idx(v):
@@ -211,6 +212,8 @@ def _ilist_cases(tier, cfg):
 
 
 def cases(tier, cfg):
+    if not cfg.ndebug and not cfg.san:
+        return _layout_cases("quick", cfg) + _ilist_cases("quick", cfg)
     if cfg.san:
         # ASan+UBSan build: the history part (reduced), layout/constructors on the quick box
         return _history_cases(tier, cfg) + _layout_cases("quick", cfg) + _ilist_cases("quick", cfg)
@@ -223,7 +226,7 @@ def bounds(tier):
                  "misalignment 0..63 step alignof(T) (depth 3 everywhere), TensorMap(Tensor) 3x3, reshape 2x3x4->4x6, flatten 3x(W+1), squeeze "
                  "1x3x1x4. reshape: every target shape of ranks 1-4 (extents>=1) for sizes 1..24 from the prime-factor source shape (f64), sizes 12,24 (f32,i64), "
                  "12,16,18,20,24 (i32). layout + constructors: all shapes of ranks 1-4 with extents<=3 (f64,i32; f32,i64 ranks<=2) + W/W+1 shapes. nested "
-                 "initializer lists ranks 1-4, 13 shapes x 4 types. S2,A2,A5. (Shrunk from DESIGN.md: reshape sources restricted to one or two canonical shapes "
+                 "initializer lists ranks 1-4, 13 shapes x 4 types. S2,A2,A5 + the layout / constructor / initializer-list cases in an assertion-carrying build (S2 without NDEBUG). (Shrunk from DESIGN.md: reshape sources restricted to one or two canonical shapes "
                  "per size - the source shape enters reshape only through data() and the size check; layout bound 3 instead of 4.)",
         "thorough": "history: as quick plus raw 2x3x4 (depth 3 at every misalignment), further raw shapes (2W+1), 4x5, 2x2x2x3 (depth 2 off zero), TensorMap(Tensor) 2x3x4, "
                     "reshape 4x6->2x3x4, (2W+2)->2x(W+1), 2x2x2x2->4x4, flatten 2x3x4, squeeze 2x1x5. reshape: every target of ranks 1-4 for sizes 1..24 from two source "
